@@ -24,7 +24,7 @@ SCHED_PATH = ("sched",)
 LEVEL = "exploration"
 QUICK_N = 400
 SCENARIO_TIMEOUT = 180
-PROBES = ["tie_mode", "score_exactly_zero", "quantised_scores", "best_ranked_rows_are_decoys", "another_collection_analysed_before_in_process", "dedup_off", "rollup_off", "decoys_off", "multi_collection", "no_prefix_multi",
+PROBES = ["tie_mode", "score_exactly_zero", "quantised_scores", "best_ranked_rows_are_decoys", "another_collection_analysed_before_in_process", "dedup_off", "rollup_off", "decoys_off", "multi_collection", "no_prefix_multi", "empty_string_prefix",
           "level_cols", "parquet", "spill_files>=2", "group_cut_by_chunk", "merge_chunk_small", "workers>1",
           "switches>0", "listing_permuted", "rollup_tool", "rollup_tool_multi_root", "degenerate_level",
           "conf_chunk_1", "level_batch_flush"]
@@ -71,7 +71,17 @@ def make_scenario(seed):
         "eval_fdr": 0.1037,
     }
     if n_coll > 1:
-        conf["prefixes"] = [f"c{i}" for i in range(n_coll)] if rng.random() < 0.7 else None
+        r = rng.random()
+        if r < 0.55:
+            conf["prefixes"] = [f"c{i}" for i in range(n_coll)]
+        elif r < 0.7:
+            conf["prefixes"] = None
+        elif r < 0.85:
+            conf["prefixes"] = [""] * n_coll  # what the command line passes for several files analysed jointly
+        else:
+            conf["prefixes"] = [rng.choice(["", None, f"c{i}"]) for i in range(n_coll)]
+    elif rng.random() < 0.2:
+        conf["prefixes"] = [""]
     n_guess = len(W.build_conf_table(tabs[rng.randrange(len(tabs))])["rows"])  # exact row count of one collection
     kn = {}
     if rng.random() < 0.85:
@@ -128,6 +138,9 @@ def _parse_level_files(files, prefix, level, want_decoys):
         if name not in files:
             raise KeyError(name)
         header, rows = P.parse_result_file(files[name])
+        for need in ("PSMId",):
+            if need not in header:
+                raise ValueError(f"{name}: no column {need!r} in the header line {header[:5]}")
         for i, r in enumerate(rows):
             if len(r) != len(header):
                 raise ValueError(f"{name} row {i}: {len(r)} fields for {len(header)} header columns")
@@ -307,7 +320,8 @@ def run_scenario(scn, workdir):
         "rollup_off": int(not conf["rollup"]),
         "decoys_off": int(not conf["decoys"]),
         "multi_collection": int(len(tables) > 1),
-        "no_prefix_multi": int(len(tables) > 1 and not conf.get("prefixes")),
+        "no_prefix_multi": int(len(tables) > 1 and sum(1 for pf in (conf.get("prefixes") or [None] * len(tables)) if not pf) > 1),
+        "empty_string_prefix": int(any(pf == "" for pf in (conf.get("prefixes") or []))),
         "level_cols": int(bool(level_cols)),
         "parquet": int(scn["format"] == "parquet"),
         "spill_files>=2": int(ccs < max(n_rows)),
@@ -384,7 +398,7 @@ def run_scenario(scn, workdir):
         if bad:
             clause, msg, sig = bad
             return viol(clause, msg, **sig)
-    if len(tables) > 1 and not conf.get("prefixes"):
+    if len(tables) > 1 and any(not pf for pf in prefixes):
         # no foreign rows in the shared files
         all_ids = {r["PSMId"] for rs in recs for r in rs}
         for lv in levels:
